@@ -254,8 +254,8 @@ theorem C10_verp_identity (sender recip : Bytes) :
 edited / SIGHUP delivered (`sighup()` sets the flag) / the main loop passes its top (`if
 (flagreadasap) { flagreadasap = 0; reread(); }`) / `todo_do` preprocesses a message with given
 outputs. The guard of `msg` ("the outputs are `todoDo` under the configuration in force") is tied to
-the code by replaying the real daemon's traces through `acceptAll` (driver, DISAGREE channel). The
-theorems below are consequences *over all traces the monitor accepts*: which events can change the
+the code by replaying the real daemon's traces through `acceptAll` (driver, DISAGREE channel). What
+follows are consequences *over all traces the monitor accepts*: which events can change the
 configuration (`C10_fixed`, `C10_nohup`, `C10_hup`, `C10_hup_later`, `C10_hup_race`: induction over the
 trace) and that every accepted trace satisfies the documented predicate `specTrace` (`C10_trace`:
 simulation invariant `Sim`, chaining `C10_controls`, `C10_hup_controls`, `C10_constmap`, `C10_spec`,
